@@ -49,8 +49,69 @@ var writeCallees = map[string][2]int{
 	"pkg/core.metaObject.writeMetadata": {0, 1},
 }
 
-// enumPutSites lists every write site of the given packages (relative paths).
+// paramIndexByName returns the index of the parameter of f with that name, or -1.
+func paramIndexByName(f *FuncInfo, name string) int {
+	sig, _ := f.Obj.Type().(*types.Signature)
+	if sig == nil {
+		return -1
+	}
+	for i := 0; i < sig.Params().Len(); i++ {
+		if sig.Params().At(i).Name() == name {
+			return i
+		}
+	}
+	return -1
+}
+
+// enumPutSites lists every write site of the given packages (relative paths). A function of those packages that writes
+// a key it received as a parameter is a write wrapper (writeMetadata is the hand-listed one; a helper extracted from a
+// writer is found the same way): its calls are write sites too, with the key taken from the argument and the mode from
+// the argument or from the wrapper's own constant.
 func enumPutSites(p *Prog, pkgs ...string) []putSite {
+	callees := map[string][2]int{}
+	constMode := map[string]string{}
+	for k, v := range writeCallees {
+		callees[k] = v
+	}
+	out := enumPutSitesWith(p, callees, constMode, pkgs...)
+	for round := 0; round < 2; round++ {
+		grew := false
+		for _, s := range out {
+			if !strings.HasPrefix(s.Kind, "param:") {
+				continue
+			}
+			if _, known := callees[s.Fn.ID]; known {
+				continue
+			}
+			ki := paramIndexByName(s.Fn, strings.TrimPrefix(s.Kind, "param:"))
+			if ki < 0 {
+				continue
+			}
+			switch {
+			case strings.HasPrefix(s.Mode, "param:"):
+				if mi := paramIndexByName(s.Fn, strings.TrimPrefix(s.Mode, "param:")); mi >= 0 {
+					callees[s.Fn.ID] = [2]int{ki, mi}
+					grew = true
+				}
+			case s.Mode == "NoOverWrite" || s.Mode == "OverWrite":
+				if prev, seen := constMode[s.Fn.ID]; seen && prev != s.Mode {
+					constMode[s.Fn.ID] = "expr"
+				} else if !seen {
+					constMode[s.Fn.ID] = s.Mode
+				}
+				callees[s.Fn.ID] = [2]int{ki, -1}
+				grew = true
+			}
+		}
+		if !grew {
+			break
+		}
+		out = enumPutSitesWith(p, callees, constMode, pkgs...)
+	}
+	return out
+}
+
+func enumPutSitesWith(p *Prog, callees map[string][2]int, constMode map[string]string, pkgs ...string) []putSite {
 	var out []putSite
 	for _, rel := range pkgs {
 		for _, f := range p.FuncsIn(rel) {
@@ -65,12 +126,18 @@ func enumPutSites(p *Prog, pkgs ...string) []putSite {
 					return true
 				}
 				id := calleeID(info, call)
-				idx, ok := writeCallees[id]
-				if !ok || len(call.Args) <= idx[1] {
+				idx, ok := callees[id]
+				if !ok || len(call.Args) <= idx[1] || len(call.Args) <= idx[0] {
 					return true
 				}
-				s := putSite{Fn: f, Call: call, Callee: id, KeyExpr: call.Args[idx[0]], ModeExpr: call.Args[idx[1]]}
-				s.Mode = resolveMode(f, call.Args[idx[1]])
+				s := putSite{Fn: f, Call: call, Callee: id, KeyExpr: call.Args[idx[0]]}
+				if idx[1] >= 0 {
+					s.ModeExpr = call.Args[idx[1]]
+					s.Mode = resolveMode(f, call.Args[idx[1]])
+				} else {
+					s.ModeExpr = call.Args[idx[0]]
+					s.Mode = constMode[id]
+				}
 				s.Kind = resolveKeyKind(f, call.Args[idx[0]], 0)
 				n[id]++
 				s.Key = f.ID + ":" + shortCallee(id) + "#" + itoa(n[id])
